@@ -164,7 +164,7 @@ def make_check(prop, plans_of, rule, nontrivial, level="model_checking", assumpt
             if nmig:
                 mig = []
                 for r_ in rng.sample(runs, min(len(runs), nmig)):
-                    st_ = r_["steps"]
+                    st_ = r_.get("steps") or []          # (multi-phase runs are left alone)
                     if len(st_) >= 2:
                         pos = rng.randrange(1, len(st_))
                         mig.append({"id": r_["id"] + "-mig", "steps": st_[:pos] + [{"op": "migrate"}] + st_[pos:]})
